@@ -2,6 +2,7 @@ import Driver.Util
 import Driver.Locals
 import Driver.Iter
 import Driver.Custom
+import Driver.Edit
 open Driver
 
 def step (line : String) : List String :=
@@ -10,6 +11,7 @@ def step (line : String) : List String :=
   | "iter" :: rest => runIter rest
   | "compiter" :: rest => runCompIter rest
   | "custom" :: rest => runCustom rest
+  | "edit" :: rest => runEdit rest
   | [] => []
   | f :: _ => [s!"{f} ? unknown-family"]
 
